@@ -56,6 +56,10 @@ def decanon(c):
         return dict((decanon(k), decanon(v)) for k, v in c[1:])
     if tag == 'by':
         return bytes.fromhex(c[1])
+    if tag == 'o' and c[1] == 'AccObj':
+        o = F.AccObj()
+        o.n, o.total, o.seen = decanon(c[2])
+        return o
     return c
 
 
